@@ -71,3 +71,8 @@ L('nmov_strict', {'frozen': 'set[int]', 'n': 'int'},
 L('nmov_nonneg', {'frozen': 'set[int]', 'n': 'int'}, 'nmov(frozen, n) >= 0', ind='n', base='0')
 L('nmov_mono', {'frozen': 'set[int]', 'i': 'int', 'n': 'int'}, 'nmov(frozen, i) <= nmov(frozen, n)', ind='n', base='i', requires=['i <= n'])
 L('nmov_nonneg_all', {'frozen': 'set[int]', 'n': 'int'}, 'forall(lambda i: nmov(frozen, i) >= 0, 0, n + 1)', ind='n', base='0')
+
+# a count over [0,n) equals n exactly when the predicate holds everywhere (flat check: every bin meets the criterion)
+L('cnt_le', {'b': 'list[bool]', 'n': 'int'}, 'And(0 <= cnt(lambda j: b[j], 0, n), cnt(lambda j: b[j], 0, n) <= maxv(n, 0))', ind='n', base='0')
+L('cnt_full', {'b': 'list[bool]', 'n': 'int'}, 'iff(cnt(lambda j: b[j], 0, n) == n, forall(lambda j: b[j], 0, n))', ind='n', base='0',
+  requires=['n >= 0'], uses=['cnt_le(b, n)', 'cnt_le(b, n - 1)'])
